@@ -136,6 +136,9 @@ pub(crate) struct Chunk {
     instructions: Vec<(Instruction, Vec<Span>)>,
     /// The template name so we can point to the right place for error messages
     pub name: String,
+    /// The listing of the chunk as it was before `optimize` ran, for the verification harness
+    #[cfg(feature = "verif-hooks")]
+    pub(crate) verif_unoptimized: Vec<String>,
 }
 
 impl Chunk {
@@ -143,6 +146,8 @@ impl Chunk {
         Self {
             instructions: Vec::with_capacity(256),
             name: name.to_owned(),
+            #[cfg(feature = "verif-hooks")]
+            verif_unoptimized: Vec::new(),
         }
     }
 
@@ -216,8 +221,11 @@ impl Chunk {
     /// so much on the stack in the VM when we can
     pub(crate) fn optimize(&mut self) {
         #[cfg(feature = "verif-hooks")]
-        if crate::verif::skip_optimize() {
-            return;
+        {
+            self.verif_unoptimized = self.verif_listing();
+            if crate::verif::skip_optimize() {
+                return;
+            }
         }
         let mut old_instructions = std::mem::take(&mut self.instructions);
         let mut optimized = Vec::with_capacity(old_instructions.len());
